@@ -442,6 +442,40 @@ def check_hit_effects(run, ctx, which):
     return n, anchors
 
 
+def check_lookup_stats_free(run, ctx):
+    """C15-E1/E2 without any oracle: every path the lookup can take, whatever each individual test (store lookup,
+    expiry, membership re-check, a second look under another lock) answers, records exactly one of hit/miss, and a hit
+    exactly when a value is returned.  Catches accounting mistakes on paths that need two tests to disagree."""
+    C = Core(ctx)
+    n = 0
+    for flav, adt in FLAVOURS:
+        get = C.method(adt, 'get')
+        if get is None:
+            continue
+        for p_ in range(6):
+            for ttl in (0, 1):
+                for lim in (0, 1):
+                    a = {'policy': p_, 'limit': lim, 'max_memory': 0, 'ttl': ttl}
+                    w = C.weigher(a, {}, root=get)
+                    sp = w.spec(get)
+                    for n_, vs in sp.path_totals().items():
+                        ret = sp.return_value(n_)
+                        for v in vs:
+                            d = _vec(v)
+                            n += 1
+                            key = '%s/%s/free' % (flav, POL[p_])
+                            if d['hit'] + d['miss'] != 1:
+                                run.bad('C15-E1', key + '/count', 'some lookup path of %s records %d hit(s) and %d miss(es) (%s): every lookup must be counted exactly once, whatever '
+                                        'the individual tests on the way answer' % (get.name, d['hit'], d['miss'], describe(a)), site=get.name,
+                                        oracle='exactly one record_hit/record_miss per lookup path')
+                            elif ret is not None and (d['hit'] == 1) != (ret == 1):
+                                run.bad('C15-E2', key + '/polarity', 'a lookup path of %s that returns %s records a %s (%s)' % (get.name, 'a value' if ret == 1 else 'nothing',
+                                        'hit' if d['hit'] else 'miss', describe(a)), site=get.name, oracle='hit recorded exactly when a value is returned')
+                            else:
+                                run.ok('C15-E1', '%s/%s' % (key, describe(a)), '(ret=%s, hit=%d, miss=%d)' % (ret, d['hit'], d['miss']))
+    return n
+
+
 def check_lookup_removes_nothing_unbounded(run, ctx):
     """C03-E1 (lookup part): with no limit / memory bound / ttl no lookup path removes anything"""
     rows, anchors = lookup_scenarios(ctx)
